@@ -18,14 +18,14 @@ open Runner_common
 let rec nat_of_int n : M.nat = if n <= 0 then M.O else M.S (nat_of_int (n - 1))
 let rec int_of_n : M.nat -> int = function M.O -> 0 | M.S n -> 1 + int_of_n n
 
-type cfg = { id : string; entries : (M.nat * M.nat) list; outc : M.outcome }
+type cfg = { id : string; entries : ((M.nat * M.nat) * bool) list; outc : M.outcome }
 
 let parse_cfg f =
   match f with
   | _ :: id :: es :: o :: _ ->
     let entries = List.filter_map (fun s ->
         match String.split_on_char ':' s with
-        | [r; p] -> Some (nat_of_int (int_of_string r), nat_of_int (int_of_string p))
+        | [r; p; b] -> Some ((nat_of_int (int_of_string r), nat_of_int (int_of_string p)), b = "1")
         | _ -> None) (String.split_on_char ',' es) in
     { id; entries; outc = (if o = "E" then M.OEof else M.OErr M.O) }
   | _ -> failwith "bad CFG line"
@@ -48,7 +48,7 @@ let ev_str = function
   | M.EvEof -> "EOF" | M.EvErr _ -> "ERR" | M.EvAbort -> "ABORT"
 let obs_str = function
   | M.ORecv e -> "recv=" ^ ev_str e | M.ODisc -> "recv=disc" | M.ONoRx -> "recv=norx"
-  | M.OContOk -> "cont=ok" | M.OContEof -> "cont=eof" | M.OContNoRun -> "cont=norun"
+  | M.OContOk -> "cont=ok" | M.OContEof -> "cont=eof" | M.OContNoRun -> "cont=norun" | M.ORunPanic -> "run=panic"
 
 let c_name (s : M.state) = match s.M.c_pc with
   | M.CIdle -> if s.M.cmds = [] then "end" else "cmd"
@@ -58,7 +58,7 @@ let p_name fixed (s : M.state) = match s.M.p_pc with
   | M.PNone -> "none" | M.PStart _ -> "t_start" | M.PLoad _ -> "l_load" | M.PLock _ -> "l_lock"
   | M.PSend _ -> "l_send" | M.PPark _ -> "l_park"
   | M.PFinal _ -> if fixed then "t_final" else "t_final_send"
-  | M.PFinalSend _ -> "t_final_send" | M.PStore -> "t_store" | M.PExit -> "t_exit" | M.PDone -> "done"
+  | M.PFinalSend _ -> "t_final_send" | M.PStore -> "t_store" | M.PExit -> "t_exit" | M.PDone -> "done" | M.PDead -> "dead"
 
 (* the observation the real code must produce on schedule `sched` *)
 let simulate fixed cap (c : cfg) bps cmds sched : string * M.state option =
@@ -80,3 +80,126 @@ let simulate fixed cap (c : cfg) bps cmds sched : string * M.state option =
     let obs = String.concat "," (List.rev_map obs_str !s.M.out) in
     let status = if M.c_finished !s then "FIN" else if M.deadlocked cf !s then "HANG" else "LIVE" in
     (Printf.sprintf "%s|%s|%s" t obs status, Some !s)
+
+(* ---- generation -------------------------------------------------------------------------- *)
+let emitted = ref 0
+let emit (c : cfg) cap bps cmds sched =
+  incr emitted;
+  Printf.printf "%s\t%d\t%s\t%s\t%s\n" c.id cap (String.concat "," (List.map string_of_int bps)) cmds sched
+
+(* every complete schedule with at most k preemptions (a switch away from a thread that could go on);
+   switches forced by blocking are free *)
+let enumerate fixed cap (c : cfg) bps cmds k =
+  let cf = config fixed cap in
+  let buf = Bytes.create 4096 in
+  let rec go (s : M.state) cur n k =
+    if n >= 4000 then () else
+    let ec = M.enabled cf s M.C and ep = M.enabled cf s M.P in
+    if not ec && not ep then emit c cap bps cmds (Bytes.sub_string buf 0 n)
+    else begin
+      let take t ch k' = match M.step cf s t with
+        | Some s' -> Bytes.set buf n ch; go s' ch (n + 1) k'
+        | None -> () in
+      let cur_enabled = (cur = 'C' && ec) || (cur = 'P' && ep) in
+      if ec then (if cur = 'C' || not cur_enabled then take M.C 'C' k else if k > 0 then take M.C 'C' (k - 1));
+      if ep then (if cur = 'P' || not cur_enabled then take M.P 'P' k else if k > 0 then take M.P 'P' (k - 1))
+    end in
+  go (M.init (cmds_of c cmds) (List.map nat_of_int bps)) 'C' 0 k
+
+let rng = ref 0x9E3779B97F4A7C15L
+let next () =
+  rng := Int64.add !rng 0x9E3779B97F4A7C15L;
+  let z = !rng in
+  let z = Int64.mul (Int64.logxor z (Int64.shift_right_logical z 30)) 0xBF58476D1CE4E5B9L in
+  let z = Int64.mul (Int64.logxor z (Int64.shift_right_logical z 27)) 0x94D049BB133111EBL in
+  Int64.logxor z (Int64.shift_right_logical z 31)
+let below n = if n <= 0 then 0 else Int64.to_int (Int64.unsigned_rem (next ()) (Int64.of_int n))
+
+let random_case fixed (c : cfg) nrules =
+  let cap = if below 5 = 0 then 2 else 1 in
+  let bps = List.filter (fun _ -> below 2 = 0) (List.init nrules (fun i -> i)) in
+  let len = 3 + below 9 in
+  let cmds = "R" :: List.init len (fun _ ->
+      match below 12 with
+      | 0 | 1 -> "R" | 2 | 3 | 4 | 5 -> "K" | 6 | 7 | 8 | 9 -> "V"
+      | 10 -> "A" ^ string_of_int (below nrules) | _ -> "D" ^ string_of_int (below nrules)) in
+  let cmds = String.concat "," cmds in
+  let cf = config fixed cap in
+  let b = Buffer.create 128 in
+  let s = ref (M.init (cmds_of c cmds) (List.map nat_of_int bps)) in
+  let cur = ref M.C in
+  let stop = ref false in
+  while not !stop && Buffer.length b < 1500 do
+    let ec = M.enabled cf !s M.C and ep = M.enabled cf !s M.P in
+    if not ec && not ep then stop := true else begin
+      let other = if !cur = M.C then M.P else M.C in
+      let cur_en = if !cur = M.C then ec else ep and oth_en = if !cur = M.C then ep else ec in
+      let t = if cur_en && (not oth_en || below 4 <> 0) then !cur else other in
+      cur := t;
+      (match M.step cf !s t with Some s' -> s := s' | None -> stop := true);
+      Buffer.add_char b (if t = M.C then 'C' else 'P')
+    end
+  done;
+  emit c cap bps cmds (Buffer.contents b)
+
+(* command histories enumerated exhaustively (per grammar): (breakpoints, commands) by rule NAME index *)
+let histories (c : cfg) : (int list * string) list =
+  if c.id = "ident" then  (* alpha0 digit1 ident2 ident_list3 *)
+    [ ([0;1;2;3], "R,V,K,R");            (* DESIGN.md section 4 row 12 *)
+      ([2], "R,V,K,V,K,V");              (* test_full_flow *)
+      ([2], "R,V,R,V");                  (* test_restart *)
+      ([2], "R,V,K,K,R,V");              (* cont without an unanswered event, then re-run *)
+      ([], "R,K,V,K");                   (* no breakpoints *)
+      ([2], "R,V,D2,K,V");               (* delete racing with the lookups *)
+      ([], "R,A2,V,K,V") ]               (* add racing with the lookups *)
+  else
+    [ ([0;1;2;3;4], "R,V,K,R,V");
+      ([0;1], "R,V,K,V,K,V,K");
+      ([1], "R,K,V,R,K,V");
+      ([0], "R,V,K,K,R,V,K,V") ]
+
+(* ---- main ---------------------------------------------------------------------------------- *)
+let () =
+  let mode = if Array.length Sys.argv > 1 then Sys.argv.(1) else "check" in
+  let fixed = ref false and cfgs = ref [] and names = Hashtbl.create 7 in
+  let header f = match f with
+    | "MODE" :: m :: _ -> fixed := (m = "fixed"); true
+    | "CFG" :: _ -> let c = parse_cfg f in cfgs := !cfgs @ [c];
+      Hashtbl.replace names c.id (List.length (String.split_on_char ',' (List.nth f 4))); true
+    | _ -> false in
+  if mode = "gen" then begin
+    let k = int_of_string Sys.argv.(2) and nrandom = int_of_string Sys.argv.(3) in
+    rng := Int64.of_string Sys.argv.(4);
+    read_lines (fun line -> if header (split_tab line) then print_endline line);
+    List.iter (fun c -> List.iter (fun (bps, cmds) -> enumerate !fixed 1 c bps cmds k) (histories c)) !cfgs;
+    let n = List.length !cfgs in
+    if n > 0 then for i = 1 to nrandom do
+        let c = List.nth !cfgs (i mod n) in random_case !fixed c (Hashtbl.find names c.id) done
+  end else begin
+    let n = ref 0 and nontrivial = ref 0 and hangs = ref 0 and known = ref 0 in
+    read_lines (fun line ->
+        if String.length line > 0 && line.[0] = '#' then print_endline line else
+        let f = split_tab line in
+        if header f then () else
+        match f with
+        | [id; cap; bps; cmds; sched; impl] ->
+          incr n;
+          let c = List.find (fun c -> c.id = id) !cfgs in
+          let case = String.concat "\t" [id; cap; bps; cmds; sched] in
+          let expected, st = simulate !fixed (int_of_string cap) c (ints bps) cmds sched in
+          (* non-trivial: both threads took steps while the other one was enabled at least once = has a P step and a re-run or cont *)
+          if String.contains sched 'P' && (String.contains cmds 'K' || (String.length cmds > 1 && String.contains_from cmds 1 'R')) then incr nontrivial;
+          let status = match List.rev (String.split_on_char '|' impl) with x :: _ -> x | [] -> "" in
+          let drained_join, undisc = match st with
+            | Some s -> (match s.M.c_pc with M.RJoin (true, _, _) -> true | _ -> false), s.M.undisc
+            | None -> false, false in
+          if status = "HANG" then incr hangs;
+          if status = "HANG" && drained_join then begin
+            if undisc && !fixed then begin incr known; Printf.printf "KNOWN\tundisciplined\t%s\t%s\n" case impl end
+            else report "spec" case impl "run() returns: every delivered event had been received when it was called"
+          end;
+          if impl <> expected then report "model" case impl expected
+        | _ -> ());
+    Printf.printf "#RUNNER\tcases=%d\tmismatches=%d\tdistinct_nontrivial=%d\thangs=%d\tknown_undisciplined=%d\tfixed=%d\n"
+      !n !mismatches !nontrivial !hangs !known (if !fixed then 1 else 0)
+  end
